@@ -1,4 +1,7 @@
-import DswModel.Tie.SwStubs
+import DswModel.Tie.SwVt
+import DswModel.Tie.Corollaries
+import DswModel.Tie.OpBits
+import DswModel.Tie.SwEncodeNp
 /-!
 # Translation tie — `encode` (dsw/spiderweb.py)
 
@@ -7,9 +10,506 @@ import DswModel.Tie.SwStubs
 the error outcomes and running out of fuel at the same iteration — for every well-formed accessor
 (`Acc.WF`: four entries per row, each `-1` or a row index), every start vertex of it, every table
 the code can index (`TblOK`) and every 0/1 message (`need_path=False`; `verbose` has no influence).
+
+Proof plan (`Tie/SwEncodeNp.lean` has the array lemmas): `St` collects the fields of the environment
+the loops read; every continuation gets a spec `∃ e', kN fuel e = .ok (.norm e') ∧ …` chained with
+`seq_norm_spec`; the two `while` loops follow `encodeNormalLoop` / `encodeFastLoop` iteration by
+iteration (induction on the shared fuel, `LoopPost`), generalised over the strand already emitted
+and, in fast mode, over the position (`bits.drop location`); `k9`/`k8` are `tail`.
 -/
 namespace Dsw.Tie
-open Dsw Dsw.Py Dsw.Tie.Stub
+open Dsw Dsw.Py EncNp BitsTie
+
+namespace EncTie
+
+theorem bit_to_number_arr (bits : List Nat) (fuel : Nat) (verbose : Bool) (hb : ∀ x ∈ bits, x ≤ 1)
+    (hf : 3 ≤ fuel) :
+    Gen.bit_to_number fuel (bitsPV bits) (.bool true) (.bool verbose) = .ok (dstr (bitToNumberStr bits)) := by
+  have h : pyEnumerate (bitsPV bits) = .ok (.list (enumFrom 0 (bits.map fun (n : Nat) => .int (n : Int)))) := rfl
+  simp only [Gen.bit_to_number, Gen.bit_to_number.body, truthy_bool, bnd_ok, if_true, h, pyIter_list]
+  apply callResult_seq_of_norm (StrRel verbose (bitToNumberStr bits))
+  · exact for1_loop fuel hf verbose bits hb [0] _ ⟨str_lit_zero, rfl, Digits_singleton.mpr (by omega)⟩
+  · intro e' h
+    simp only [Gen.bit_to_number.k1, h.1, callResult_ret]
+
+theorem Digits_bitToNumberStr (bits : List Nat) (hb : ∀ x ∈ bits, x ≤ 1) : Digits (bitToNumberStr bits) := by
+  unfold bitToNumberStr
+  have : ∀ (st : Dec), Digits st →
+      Digits (bits.foldl (fun n b => calculusAddition (calculusMultiplication n 2) b) st) := by
+    induction bits with
+    | nil => intro st h; exact h
+    | cons b r ih =>
+      intro st h
+      have hb1 := hb b (by simp)
+      exact ih (fun x hx => hb x (by simp [hx])) _
+        (Digits_calculusAddition (Digits_calculusMultiplication h (by omega)) (by omega))
+  exact this [0] (Digits_singleton.mpr (by omega))
+
+/-- the part of the environment the loops read: the parameters (never assigned), the current vertex,
+the strand emitted so far, and the mode-specific counters. -/
+structure St (a : Acc) (tbl : Option Tbl) (bits : List Nat) (vtLen : Nat) (verbose : Bool)
+    (w : Nat) (pre : List Char) (qv lv : PV) (e : Gen.encode.Env) : Prop where
+  acc : e.accessor = accPV a
+  shf : e.shuffles = tblPV tbl
+  np : e.need_path = .bool false
+  vb : e.verbose = .bool verbose
+  nuc : e.nucleotides = .str ['A', 'C', 'G', 'T']
+  msg : e.binary_message = bitsPV bits
+  vt : e.vt_length = .int (vtLen : Int)
+  vi : e.vertex_index = .int (w : Int)
+  dna : e.dna_sequence = .str pre
+  qu : e.quotient = qv
+  loc : e.location = lv
+
+/-- close a goal `St … e'` where `e'` is an update of `e` and `h : St … e`. -/
+macro "st_close " h:ident : tactic =>
+  `(tactic| (constructor <;> first
+    | rfl
+    | simp only [($h).acc, ($h).shf, ($h).np, ($h).vb, ($h).nuc, ($h).msg, ($h).vt, ($h).vi, ($h).dna, ($h).qu,
+        ($h).loc]))
+
+theorem seq_norm_spec {ε} {m : R (Flow ε)} {k : ε → R (Flow ε)} (Q P : ε → Prop)
+    (hm : ∃ e1, m = .ok (.norm e1) ∧ Q e1) (hk : ∀ e1, Q e1 → ∃ e2, k e1 = .ok (.norm e2) ∧ P e2) :
+    ∃ e2, seq m k = .ok (.norm e2) ∧ P e2 := by
+  obtain ⟨e1, rfl, hq⟩ := hm; exact hk e1 hq
+
+/-- what one iteration of either loop establishes: the next vertex is `a.ent w j`, nucleotide `j` was
+emitted. -/
+def StepPost (a : Acc) (tbl : Option Tbl) (bits : List Nat) (vtLen : Nat) (verbose : Bool) (w : Nat)
+    (pre : List Char) (j : Nat) (qv lv : PV) (e' : Gen.encode.Env) : Prop :=
+  ∃ w' : Nat, a.ent w j = (w' : Int) ∧ w' < a.size ∧
+    St a tbl bits vtLen verbose w' (pre ++ [nucChar j]) qv lv e'
+
+section
+variable {a : Acc} {tbl : Option Tbl} {bits : List Nat} {vtLen : Nat} {verbose : Bool}
+
+/-- the statement `if shuffles is not None: remainder = argsort(shuffles[v, used])[remainder]`. -/
+theorem shuffle_stmt {ε} (ht : TblOK tbl a) {w : Nat} (hw : w < a.size) {d : Nat}
+    (hd : d < (a.live w).length) {S V U Rm : PV} {e : ε} {upd : PV → ε}
+    (hS : S = tblPV tbl) (hV : V = .int (w : Int)) (hU : U = idxPV (a.live w)) (hR : Rm = .int (d : Int)) :
+    ∃ e1, ((bnd (.ok (!pyIsNone S)) fun c =>
+        if c then
+          bnd (bnd (bnd (npIndex2 S V U) fun t1 => npArgsort t1) fun t2 => pyIndex t2 Rm) fun t3 =>
+          .ok (.norm (upd t3))
+        else .ok (.norm e)) : R (Flow ε)) = .ok (.norm e1) ∧
+      ((tbl = Option.none ∧ e1 = e) ∨ e1 = upd (.int ((digitToPos tbl w (a.live w) d : Nat) : Int))) := by
+  subst hS hV hU hR
+  cases tbl with
+  | none => exact ⟨e, rfl, Or.inl ⟨rfl, rfl⟩⟩
+  | some t =>
+    obtain ⟨hv, h4⟩ := tblOK_row ht rfl hw
+    refine ⟨_, ?_, Or.inr rfl⟩
+    simp only [tblPV, pyIsNone_accPV, Bool.not_false, bnd_ok, if_true,
+      shuffle_spec t hv h4 (fun j hj => live_lt_four a w hj) hd]
+
+/-- `k1`: pick the column (normal mode). -/
+theorem k1_spec (F : Nat) {w : Nat} {pre : List Char} {qv lv : PV} {e : Gen.encode.Env}
+    (h : St a tbl bits vtLen verbose w pre qv lv e) {used : List Nat} (hu : e.used_indices = idxPV used)
+    {p : Nat} (hr : e.remainder = .int (p : Int)) (hp : p < used.length) :
+    ∃ e', Gen.encode.k1 F e = .ok (.norm e') ∧ St a tbl bits vtLen verbose w pre qv lv e' ∧
+      e'.value = .int ((used.getD p 0 : Nat) : Int) := by
+  simp only [Gen.encode.k1, hu, hr, pyIndex_idxPV hp, bnd_ok, h.np, truthy_bool, Bool.false_eq_true, if_false]
+  exact ⟨_, rfl, by st_close h, rfl⟩
+
+/-- `k2`: emit the nucleotide and move on (normal mode). -/
+theorem k2_spec (ha : a.WF) (F : Nat) {w : Nat} (hw : w < a.size) {pre : List Char} {qv lv : PV}
+    {e : Gen.encode.Env}
+    (h : St a tbl bits vtLen verbose w pre qv lv e) {j : Nat} (hval : e.value = .int (j : Int))
+    (hj : j ∈ a.live w) :
+    ∃ e', Gen.encode.k2 F e = .ok (.norm e') ∧ StepPost a tbl bits vtLen verbose w pre j qv lv e' := by
+  obtain ⟨w', hent, hw'⟩ := ent_live a ha hw hj
+  have h4 := live_lt_four a w hj
+  simp only [Gen.encode.k2, h.nuc, hval, pyIndex_ACGT h4, bnd_ok, h.acc, h.vi, ent_spec a ha hw h4, h.dna,
+    npAdd_str, h.vb, truthy_bool, pyNe_def, ite_self, hent]
+  exact ⟨_, rfl, w', hent, hw', by st_close h⟩
+
+theorem selectArc_eq (a : Acc) (tbl : Option Tbl) (w : Int) (d : Nat) :
+    (a.live w).getD (digitToPos tbl w (a.live w) d) 0 = selectArc a tbl w d := rfl
+
+/-- one iteration of the normal-mode loop at a branching vertex. -/
+theorem while1_body_branch (ha : a.WF) (ht : TblOK tbl a) (F : Nat) {w : Nat} (hw : w < a.size)
+    {pre : List Char} {q : Dec} {lv : PV} {e : Gen.encode.Env}
+    (h : St a tbl bits vtLen verbose w pre (dstr q) lv e) (hq : Digits q) (hlen : 1 < (a.live w).length) :
+    ∃ e', Gen.encode.while1_body F e = .ok (.norm e') ∧
+      StepPost a tbl bits vtLen verbose w pre
+        (selectArc a tbl w (calculusDivision q (a.live w).length).2.toNat)
+        (dstr (calculusDivision q (a.live w).length).1) lv e' := by
+  have hle := live_length_le_four a w
+  have hn10 : (a.live w).length < 10 := by omega
+  obtain ⟨hq', r, hr, hsnd⟩ := calculusDivision_digits hq (b := (a.live w).length) (by omega) hn10
+  have hr10 : r < 10 := by omega
+  have hgt : pyGt (.int ((a.live w).length : Int)) (.int 1) = .ok true := by
+    rw [pyGt_int]; simp; omega
+  have hdiv := tie_calculus_division q (a.live w).length F hq hn10
+  rw [dstr_singleton] at hdiv
+  simp only [Gen.encode.while1_body, h.acc, h.vi, used_spec a ha hw, bnd_ok, pyLen_idxPV, hgt, if_true,
+    pyStr_digit hn10, h.qu, hdiv, pyUnpack_two_tup, getD_cons_zero', getD_cons_one', hsnd, dstr_singleton,
+    pyInt_digit hr10, Dec.toNat_single]
+  apply seq_norm_spec (fun e2 => St a tbl bits vtLen verbose w pre
+      (dstr (calculusDivision q (a.live w).length).1) lv e2 ∧
+      e2.value = .int ((selectArc a tbl w r : Nat) : Int))
+  · apply seq_norm_spec (fun e1 => St a tbl bits vtLen verbose w pre
+        (dstr (calculusDivision q (a.live w).length).1) lv e1 ∧ e1.used_indices = idxPV (a.live w) ∧
+        e1.remainder = .int ((digitToPos tbl w (a.live w) r : Nat) : Int))
+    · obtain ⟨e1, h1, hc⟩ := shuffle_stmt ht hw (d := r) (by omega) (by exact h.shf) (by rfl) (by rfl) (by rfl)
+      refine ⟨e1, h1, ?_⟩
+      rcases hc with ⟨rfl, rfl⟩ | rfl
+      · exact ⟨by st_close h, rfl, rfl⟩
+      · exact ⟨by st_close h, rfl, rfl⟩
+    · intro e1 ⟨hs1, hu1, hr1⟩
+      have := k1_spec F hs1 hu1 hr1 (digitToPos_lt tbl w (a.live w) (by omega))
+      rwa [selectArc_eq] at this
+  · intro e2 ⟨hs2, hv2⟩
+    exact k2_spec ha F hw hs2 hv2 (selectArc_mem a tbl w (by unfold Acc.outDeg; omega))
+
+/-- one iteration of the normal-mode loop at a vertex with one arc. -/
+theorem while1_body_single (ha : a.WF) (F : Nat) {w : Nat} (hw : w < a.size)
+    {pre : List Char} {qv lv : PV} {e : Gen.encode.Env}
+    (h : St a tbl bits vtLen verbose w pre qv lv e) (hlen : (a.live w).length = 1) :
+    ∃ e', Gen.encode.while1_body F e = .ok (.norm e') ∧
+      StepPost a tbl bits vtLen verbose w pre ((a.live w).getD 0 0) qv lv e' := by
+  have hgt : pyGt (.int ((a.live w).length : Int)) (.int 1) = .ok false := by
+    rw [pyGt_int]; simp; omega
+  have hmem : (a.live w).getD 0 0 ∈ a.live w := by
+    rw [list_getD_eq_getElem _ _ (by omega : 0 < (a.live w).length)]; exact List.getElem_mem _
+  have heq : (((a.live w).length : Int) == 1) = true := by simp; omega
+  simp only [Gen.encode.while1_body, h.acc, h.vi, used_spec a ha hw, bnd_ok, pyLen_idxPV, hgt,
+    Bool.false_eq_true, if_false, pyEq_def, eqb_int, heq, if_true,
+    pyIndex_idxPV_zero (by omega : 0 < (a.live w).length), h.np, truthy_bool, seq_norm]
+  exact k2_spec ha F hw (by st_close h) rfl hmem
+
+/-- the normal-mode loop at a vertex without arcs. -/
+theorem while1_body_dead (ha : a.WF) (F : Nat) {w : Nat} (hw : w < a.size)
+    {pre : List Char} {qv lv : PV} {e : Gen.encode.Env}
+    (h : St a tbl bits vtLen verbose w pre qv lv e) (hlen : (a.live w).length = 0) :
+    Gen.encode.while1_body F e = .error .valueError := by
+  have hgt : pyGt (.int ((a.live w).length : Int)) (.int 1) = .ok false := by
+    rw [pyGt_int]; simp; omega
+  have heq : (((a.live w).length : Int) == 1) = false := by simp; omega
+  simp only [Gen.encode.while1_body, h.acc, h.vi, used_spec a ha hw, bnd_ok, pyLen_idxPV, hgt,
+    Bool.false_eq_true, if_false, pyEq_def, eqb_int, heq, seq_error]
+
+theorem while1_cond_spec (F : Nat) {w : Nat} {pre : List Char} {q : Dec} {lv : PV} {e : Gen.encode.Env}
+    (h : St a tbl bits vtLen verbose w pre (dstr q) lv e) (hq : Digits q) :
+    Gen.encode.while1_cond F e = .ok (!decide (q = [0])) := by
+  have h0 : Digits [0] := Digits_singleton.mpr (by omega)
+  simp only [Gen.encode.while1_cond, h.qu, pyNe_def, str_lit_zero, eqb_dstr hq h0]
+
+/-- how a loop of the code follows a loop of the model: same error, or a normal end in a state
+described by the model's result. -/
+def LoopPost (P : List Char → Gen.encode.Env → Prop) (r : R (List Char)) (m : R (Flow Gen.encode.Env)) : Prop :=
+  match r with
+  | .ok s => ∃ e', m = .ok (.norm e') ∧ P s e'
+  | .error err => m = .error err
+
+theorem LoopPost.cons {P P' : List Char → Gen.encode.Env → Prop} {r : R (List Char)}
+    {m : R (Flow Gen.encode.Env)} (c : Char) (h : LoopPost P' r m) (hp : ∀ s e', P' s e' → P (c :: s) e') :
+    LoopPost P (r.map (c :: ·)) m := by
+  cases r with
+  | error err => exact h
+  | ok s => obtain ⟨e', h1, h2⟩ := h; exact ⟨e', h1, hp s e' h2⟩
+
+/-- the state after either loop: the strand is the prefix plus the model's output. -/
+def Done (a : Acc) (tbl : Option Tbl) (bits : List Nat) (vtLen : Nat) (verbose : Bool) (pre : List Char)
+    (s : List Char) (e' : Gen.encode.Env) : Prop :=
+  ∃ (w' : Nat) (qv' lv' : PV), St a tbl bits vtLen verbose w' (pre ++ s) qv' lv' e'
+
+theorem Done.cons {pre : List Char} {c : Char} {s : List Char} {e' : Gen.encode.Env}
+    (h : Done a tbl bits vtLen verbose (pre ++ [c]) s e') : Done a tbl bits vtLen verbose pre (c :: s) e' := by
+  obtain ⟨w', qv', lv', h⟩ := h
+  refine ⟨w', qv', lv', ?_⟩
+  simpa using h
+
+/-- the normal-mode loop follows `encodeNormalLoop` iteration by iteration. -/
+theorem while1_loop (ha : a.WF) (ht : TblOK tbl a) (F : Nat) (lv : PV) :
+    ∀ (f w : Nat) (q : Dec) (pre : List Char) (e : Gen.encode.Env), w < a.size →
+      St a tbl bits vtLen verbose w pre (dstr q) lv e → Digits q →
+      LoopPost (Done a tbl bits vtLen verbose pre) (encodeNormalLoop a tbl f w q)
+        (whileLoop (Gen.encode.while1_cond F) (Gen.encode.while1_body F) f e) := by
+  intro f
+  induction f with
+  | zero => intro w q pre e _ _ _; exact rfl
+  | succ f ih =>
+    intro w q pre e hw h hq
+    rw [encodeNormalLoop]
+    by_cases hz : q = [0]
+    · have hc : Gen.encode.while1_cond F e = .ok false := by
+        rw [while1_cond_spec F h hq]; simp [hz]
+      rw [if_pos hz, whileLoop_false hc]
+      exact ⟨e, rfl, w, _, _, by simpa using h⟩
+    · have hc : Gen.encode.while1_cond F e = .ok true := by
+        rw [while1_cond_spec F h hq]; simp [hz]
+      rw [if_neg hz]
+      by_cases h1 : (a.live w).length > 1
+      · simp only [h1, if_true]
+        obtain ⟨e1, hb, w', hent, hw', hs1⟩ := while1_body_branch ha ht F hw h hq h1
+        rw [whileLoop_true_norm hc hb, hent]
+        have hq' := (calculusDivision_digits hq (b := (a.live w).length) (by omega)
+          (by have := live_length_le_four a w; omega)).1
+        exact (ih w' _ _ e1 hw' hs1 hq').cons _ (fun s e' hd => hd.cons)
+      · simp only [h1, if_false]
+        by_cases h2 : (a.live w).length = 1
+        · simp only [h2, if_true]
+          obtain ⟨e1, hb, w', hent, hw', hs1⟩ := while1_body_single ha F hw h h2
+          rw [whileLoop_true_norm hc hb, hent]
+          exact (ih w' _ _ e1 hw' hs1 hq).cons _ (fun s e' hd => hd.cons)
+        · simp only [h2, if_false]
+          rw [whileLoop_true_error hc (while1_body_dead ha F hw h (by omega))]
+          exact rfl
+
+/-! ### fast mode -/
+
+theorem k3_spec (F : Nat) {w : Nat} {pre : List Char} {qv : PV} {loc : Nat} {e : Gen.encode.Env}
+    (h : St a tbl bits vtLen verbose w pre qv (.int (loc : Int)) e) {used : List Nat}
+    (hu : e.used_indices = idxPV used) {p : Nat} (hr : e.remainder = .int (p : Int)) (hp : p < used.length) :
+    ∃ e', Gen.encode.k3 F e = .ok (.norm e') ∧
+      St a tbl bits vtLen verbose w pre qv (.int ((loc + 2 : Nat) : Int)) e' ∧
+      e'.value = .int ((used.getD p 0 : Nat) : Int) := by
+  have hc : (loc : Int) + 2 = ((loc + 2 : Nat) : Int) := by push_cast; rfl
+  simp only [Gen.encode.k3, hu, hr, pyIndex_idxPV hp, bnd_ok, h.loc, npAdd_int, hc]
+  exact ⟨_, rfl, by st_close h, rfl⟩
+
+theorem k5_spec (F : Nat) {w : Nat} {pre : List Char} {qv : PV} {loc : Nat} {e : Gen.encode.Env}
+    (h : St a tbl bits vtLen verbose w pre qv (.int (loc : Int)) e) {used : List Nat}
+    (hu : e.used_indices = idxPV used) {p : Nat} (hr : e.remainder = .int (p : Int)) (hp : p < used.length) :
+    ∃ e', Gen.encode.k5 F e = .ok (.norm e') ∧
+      St a tbl bits vtLen verbose w pre qv (.int ((loc + 1 : Nat) : Int)) e' ∧
+      e'.value = .int ((used.getD p 0 : Nat) : Int) := by
+  have hc : (loc : Int) + 1 = ((loc + 1 : Nat) : Int) := by push_cast; rfl
+  simp only [Gen.encode.k5, hu, hr, pyIndex_idxPV hp, bnd_ok, h.loc, npAdd_int, hc]
+  exact ⟨_, rfl, by st_close h, rfl⟩
+
+theorem k4_spec (ht : TblOK tbl a) (F : Nat) {w : Nat} (hw : w < a.size) {pre : List Char} {qv : PV}
+    {loc : Nat} {e : Gen.encode.Env}
+    (h : St a tbl bits vtLen verbose w pre qv (.int (loc : Int)) e)
+    (hu : e.used_indices = idxPV (a.live w)) {d : Nat} (hr : e.remainder = .int (d : Int))
+    (hd : d < (a.live w).length) :
+    ∃ e', Gen.encode.k4 F e = .ok (.norm e') ∧
+      St a tbl bits vtLen verbose w pre qv (.int ((loc + 2 : Nat) : Int)) e' ∧
+      e'.value = .int ((selectArc a tbl w d : Nat) : Int) := by
+  simp only [Gen.encode.k4]
+  apply seq_norm_spec (fun e1 => St a tbl bits vtLen verbose w pre qv (.int (loc : Int)) e1 ∧
+      e1.used_indices = idxPV (a.live w) ∧ e1.remainder = .int ((digitToPos tbl w (a.live w) d : Nat) : Int))
+  · obtain ⟨e1, h1, hc⟩ := shuffle_stmt ht hw hd (by exact h.shf) (by exact h.vi) (by exact hu) (by exact hr)
+    refine ⟨e1, h1, ?_⟩
+    rcases hc with ⟨rfl, rfl⟩ | rfl
+    · exact ⟨h, hu, hr⟩
+    · exact ⟨by st_close h, hu, rfl⟩
+  · intro e1 ⟨hs1, hu1, hr1⟩
+    have := k3_spec F hs1 hu1 hr1 (digitToPos_lt tbl w (a.live w) hd)
+    rwa [selectArc_eq] at this
+
+/-- `k7`: emit the nucleotide and move on (fast mode). -/
+theorem k7_spec (ha : a.WF) (F : Nat) {w : Nat} (hw : w < a.size) {pre : List Char} {qv lv : PV}
+    {e : Gen.encode.Env}
+    (h : St a tbl bits vtLen verbose w pre qv lv e) {j : Nat} (hval : e.value = .int (j : Int))
+    (hj : j ∈ a.live w) :
+    ∃ e', Gen.encode.k7 F e = .ok (.norm e') ∧ StepPost a tbl bits vtLen verbose w pre j qv lv e' := by
+  obtain ⟨w', hent, hw'⟩ := ent_live a ha hw hj
+  have h4 := live_lt_four a w hj
+  simp only [Gen.encode.k7, h.nuc, hval, pyIndex_ACGT h4, bnd_ok, h.acc, h.vi, ent_spec a ha hw h4, h.dna,
+    npAdd_str, h.np, truthy_bool, Bool.false_eq_true, if_false, seq_norm, Gen.encode.k6, h.vb, ite_self, hent]
+  exact ⟨_, rfl, w', hent, hw', by st_close h⟩
+
+theorem while2_cond_spec (F : Nat) {w : Nat} {pre : List Char} {qv : PV} {loc : Nat} {e : Gen.encode.Env}
+    (h : St a tbl bits vtLen verbose w pre qv (.int (loc : Int)) e) :
+    Gen.encode.while2_cond F e = .ok (decide (loc < bits.length)) := by
+  simp only [Gen.encode.while2_cond, h.msg, h.loc, pyLen_bitsPV, bnd_ok, pyLt_nat]
+
+theorem getD_le_one {bits : List Nat} (hb : ∀ x ∈ bits, x ≤ 1) (i : Nat) : bits.getD i 0 ≤ 1 := by
+  by_cases h : i < bits.length
+  · rw [list_getD_eq_getElem _ _ h]; exact hb _ (List.getElem_mem h)
+  · simp [List.getD_eq_getElem?_getD, List.getElem?_eq_none (by omega : bits.length ≤ i)]
+
+/-- one iteration of the fast loop at a vertex with four arcs. -/
+theorem while2_body_four (ha : a.WF) (ht : TblOK tbl a) (hb : ∀ x ∈ bits, x ≤ 1) (F : Nat) {w : Nat}
+    (hw : w < a.size) {pre : List Char} {qv : PV} {loc : Nat} {e : Gen.encode.Env}
+    (h : St a tbl bits vtLen verbose w pre qv (.int (loc : Int)) e) (hloc : loc < bits.length)
+    (hlen : (a.live w).length = 4) :
+    ∃ e', Gen.encode.while2_body F e = .ok (.norm e') ∧
+      StepPost a tbl bits vtLen verbose w pre
+        (selectArc a tbl w (bits.getD loc 0 * 2 + bits.getD (loc + 1) 0)) qv (.int ((loc + 2 : Nat) : Int)) e' := by
+  have heq : (((a.live w).length : Int) == 4) = true := by simp; omega
+  have hc1 : (loc : Int) + 1 = ((loc + 1 : Nat) : Int) := by push_cast; rfl
+  have h0 := getD_le_one hb loc
+  have h1 := getD_le_one hb (loc + 1)
+  simp only [Gen.encode.while2_body, h.acc, h.vi, used_spec a ha hw, bnd_ok, pyLen_idxPV, pyEq_def, eqb_int,
+    heq, if_true, h.msg, h.loc, pyIndex_bitsPV hloc, npMul_int, npAdd_int, hc1, pyLen_bitsPV, pyLt_nat]
+  apply seq_norm_spec (fun e2 => St a tbl bits vtLen verbose w pre qv (.int ((loc + 2 : Nat) : Int)) e2 ∧
+      e2.value = .int ((selectArc a tbl w (bits.getD loc 0 * 2 + bits.getD (loc + 1) 0) : Nat) : Int))
+  · by_cases hn : loc + 1 < bits.length
+    · simp only [hn, decide_true, if_true, pyIndex_bitsPV hn, bnd_ok, npAdd_int, seq_norm]
+      exact k4_spec ht F hw (by st_close h) rfl (by push_cast; rfl) (by omega)
+    · have hz : bits.getD (loc + 1) 0 = 0 := by
+        simp [List.getD_eq_getElem?_getD, List.getElem?_eq_none (by omega : bits.length ≤ loc + 1)]
+      simp only [hn, decide_false, Bool.false_eq_true, if_false, seq_norm, hz, Nat.add_zero]
+      exact k4_spec ht F hw (by st_close h) rfl (by push_cast; rfl) (by omega)
+  · intro e2 ⟨hs2, hv2⟩
+    exact k7_spec ha F hw hs2 hv2 (selectArc_mem a tbl w (by unfold Acc.outDeg; omega))
+
+/-- one iteration of the fast loop at a vertex with two arcs. -/
+theorem while2_body_two (ha : a.WF) (ht : TblOK tbl a) (hb : ∀ x ∈ bits, x ≤ 1) (F : Nat) {w : Nat}
+    (hw : w < a.size) {pre : List Char} {qv : PV} {loc : Nat} {e : Gen.encode.Env}
+    (h : St a tbl bits vtLen verbose w pre qv (.int (loc : Int)) e) (hloc : loc < bits.length)
+    (hlen : (a.live w).length = 2) :
+    ∃ e', Gen.encode.while2_body F e = .ok (.norm e') ∧
+      StepPost a tbl bits vtLen verbose w pre
+        (selectArc a tbl w (bits.getD loc 0)) qv (.int ((loc + 1 : Nat) : Int)) e' := by
+  have heq4 : (((a.live w).length : Int) == 4) = false := by simp; omega
+  have heq2 : (((a.live w).length : Int) == 2) = true := by simp; omega
+  have h0 := getD_le_one hb loc
+  simp only [Gen.encode.while2_body, h.acc, h.vi, used_spec a ha hw, bnd_ok, pyLen_idxPV, pyEq_def, eqb_int,
+    heq4, heq2, Bool.false_eq_true, if_false, if_true, h.msg, h.loc, pyIndex_bitsPV hloc]
+  apply seq_norm_spec (fun e2 => St a tbl bits vtLen verbose w pre qv (.int ((loc + 1 : Nat) : Int)) e2 ∧
+      e2.value = .int ((selectArc a tbl w (bits.getD loc 0) : Nat) : Int))
+  · apply seq_norm_spec (fun e1 => St a tbl bits vtLen verbose w pre qv (.int (loc : Int)) e1 ∧
+        e1.used_indices = idxPV (a.live w) ∧
+        e1.remainder = .int ((digitToPos tbl w (a.live w) (bits.getD loc 0) : Nat) : Int))
+    · obtain ⟨e1, h1, hc⟩ := shuffle_stmt ht hw (d := bits.getD loc 0) (by omega) (by exact h.shf) (by rfl)
+        (by rfl) (by rfl)
+      refine ⟨e1, h1, ?_⟩
+      rcases hc with ⟨rfl, rfl⟩ | rfl
+      · exact ⟨by st_close h, rfl, rfl⟩
+      · exact ⟨by st_close h, rfl, rfl⟩
+    · intro e1 ⟨hs1, hu1, hr1⟩
+      have := k5_spec F hs1 hu1 hr1 (digitToPos_lt tbl w (a.live w) (by omega))
+      rwa [selectArc_eq] at this
+  · intro e2 ⟨hs2, hv2⟩
+    exact k7_spec ha F hw hs2 hv2 (selectArc_mem a tbl w (by unfold Acc.outDeg; omega))
+
+/-- one iteration of the fast loop at a vertex with one arc. -/
+theorem while2_body_one (ha : a.WF) (F : Nat) {w : Nat}
+    (hw : w < a.size) {pre : List Char} {qv lv : PV} {e : Gen.encode.Env}
+    (h : St a tbl bits vtLen verbose w pre qv lv e) (hlen : (a.live w).length = 1) :
+    ∃ e', Gen.encode.while2_body F e = .ok (.norm e') ∧
+      StepPost a tbl bits vtLen verbose w pre ((a.live w).getD 0 0) qv lv e' := by
+  have heq4 : (((a.live w).length : Int) == 4) = false := by simp; omega
+  have heq2 : (((a.live w).length : Int) == 2) = false := by simp; omega
+  have heq1 : (((a.live w).length : Int) == 1) = true := by simp; omega
+  have hmem : (a.live w).getD 0 0 ∈ a.live w := by
+    rw [list_getD_eq_getElem _ _ (by omega : 0 < (a.live w).length)]; exact List.getElem_mem _
+  simp only [Gen.encode.while2_body, h.acc, h.vi, used_spec a ha hw, bnd_ok, pyLen_idxPV, pyEq_def, eqb_int,
+    heq4, heq2, heq1, Bool.false_eq_true, if_false, if_true,
+    pyIndex_idxPV_zero (by omega : 0 < (a.live w).length), seq_norm]
+  exact k7_spec ha F hw (by st_close h) rfl hmem
+
+/-- the fast loop at a vertex with three arcs or none. -/
+theorem while2_body_other (ha : a.WF) (F : Nat) {w : Nat}
+    (hw : w < a.size) {pre : List Char} {qv lv : PV} {e : Gen.encode.Env}
+    (h : St a tbl bits vtLen verbose w pre qv lv e) (h4 : (a.live w).length ≠ 4)
+    (h2 : (a.live w).length ≠ 2) (h1 : (a.live w).length ≠ 1) :
+    Gen.encode.while2_body F e = .error .valueError := by
+  have heq4 : (((a.live w).length : Int) == 4) = false := by simp; omega
+  have heq2 : (((a.live w).length : Int) == 2) = false := by simp; omega
+  have heq1 : (((a.live w).length : Int) == 1) = false := by simp; omega
+  simp only [Gen.encode.while2_body, h.acc, h.vi, used_spec a ha hw, bnd_ok, pyLen_idxPV, pyEq_def, eqb_int,
+    heq4, heq2, heq1, Bool.false_eq_true, if_false, ite_self, seq_error]
+
+/-- the model loop on a suffix of the message, in terms of positions. -/
+theorem encodeFastLoop_drop (a : Acc) (tbl : Option Tbl) (bits : List Nat) (f : Nat) (v : Int) {loc : Nat}
+    (hloc : loc < bits.length) :
+    encodeFastLoop a tbl (f + 1) v (bits.drop loc) =
+      if (a.live v).length = 4 then
+        (encodeFastLoop a tbl f
+          (a.ent v (selectArc a tbl v (bits.getD loc 0 * 2 + bits.getD (loc + 1) 0))) (bits.drop (loc + 2))).map
+          (nucChar (selectArc a tbl v (bits.getD loc 0 * 2 + bits.getD (loc + 1) 0)) :: ·)
+      else if (a.live v).length = 2 then
+        (encodeFastLoop a tbl f (a.ent v (selectArc a tbl v (bits.getD loc 0))) (bits.drop (loc + 1))).map
+          (nucChar (selectArc a tbl v (bits.getD loc 0)) :: ·)
+      else if (a.live v).length = 1 then
+        (encodeFastLoop a tbl f (a.ent v ((a.live v).getD 0 0)) (bits.drop loc)).map
+          (nucChar ((a.live v).getD 0 0) :: ·)
+      else .error .valueError := by
+  have h0 : bits.getD loc 0 = bits[loc] := list_getD_eq_getElem _ _ hloc
+  have h1 : bits.getD (loc + 1) 0 = (bits.drop (loc + 1)).headD 0 := by
+    simp [List.getD_eq_getElem?_getD, List.headD_eq_head?_getD, List.head?_drop]
+  have h2 : (bits.drop (loc + 1)).drop 1 = bits.drop (loc + 2) := by simp [List.drop_drop]
+  rw [h0, h1, ← h2]
+  conv => lhs; rw [List.drop_eq_getElem_cons hloc, encodeFastLoop]
+  conv => rhs; rw [List.drop_eq_getElem_cons hloc]
+
+/-- the fast loop follows `encodeFastLoop` iteration by iteration. -/
+theorem while2_loop (ha : a.WF) (ht : TblOK tbl a) (hb : ∀ x ∈ bits, x ≤ 1) (F : Nat) (qv : PV) :
+    ∀ (f w loc : Nat) (pre : List Char) (e : Gen.encode.Env), w < a.size →
+      St a tbl bits vtLen verbose w pre qv (.int (loc : Int)) e →
+      LoopPost (Done a tbl bits vtLen verbose pre) (encodeFastLoop a tbl f w (bits.drop loc))
+        (whileLoop (Gen.encode.while2_cond F) (Gen.encode.while2_body F) f e) := by
+  intro f
+  induction f with
+  | zero => intro w loc pre e _ _; exact rfl
+  | succ f ih =>
+    intro w loc pre e hw h
+    by_cases hloc : loc < bits.length
+    · have hc : Gen.encode.while2_cond F e = .ok true := by
+        rw [while2_cond_spec F h]; simp [hloc]
+      rw [encodeFastLoop_drop a tbl bits f w hloc]
+      by_cases h4 : (a.live w).length = 4
+      · rw [if_pos h4]
+        obtain ⟨e1, hbd, w', hent, hw', hs1⟩ := while2_body_four ha ht hb F hw h hloc h4
+        rw [whileLoop_true_norm hc hbd, hent]
+        exact (ih w' _ _ e1 hw' hs1).cons _ (fun s e' hd => hd.cons)
+      · rw [if_neg h4]
+        by_cases h2 : (a.live w).length = 2
+        · rw [if_pos h2]
+          obtain ⟨e1, hbd, w', hent, hw', hs1⟩ := while2_body_two ha ht hb F hw h hloc h2
+          rw [whileLoop_true_norm hc hbd, hent]
+          exact (ih w' _ _ e1 hw' hs1).cons _ (fun s e' hd => hd.cons)
+        · rw [if_neg h2]
+          by_cases h1 : (a.live w).length = 1
+          · rw [if_pos h1]
+            obtain ⟨e1, hbd, w', hent, hw', hs1⟩ := while2_body_one ha F hw h h1
+            rw [whileLoop_true_norm hc hbd, hent]
+            exact (ih w' _ _ e1 hw' hs1).cons _ (fun s e' hd => hd.cons)
+          · rw [if_neg h1, whileLoop_true_error hc (while2_body_other ha F hw h h4 h2 h1)]
+            exact rfl
+    · have hc : Gen.encode.while2_cond F e = .ok false := by
+        rw [while2_cond_spec F h]; simp [hloc]
+      rw [List.drop_eq_nil_of_le (by omega), whileLoop_false hc]
+      have : encodeFastLoop a tbl (f + 1) w [] = .ok [] := by rw [encodeFastLoop]
+      rw [this]
+      exact ⟨e, rfl, w, _, _, by simpa using h⟩
+
+/-! ### after the loops -/
+
+/-- what `encode` does with the strand. -/
+def tail (vtLen : Nat) (s : List Char) : R (List Char × Option (List Char)) :=
+  if vtLen > 0 then (setVt s vtLen).bind fun c => pure (s, some c) else pure (s, Option.none)
+
+theorem k9_spec (F : Nat) (hf : 2 * vtLen + 2 ≤ F) {s : List Char} {e : Gen.encode.Env}
+    (h : Done a tbl bits vtLen verbose [] s e) :
+    callResult (Gen.encode.k9 F e) = (tail vtLen s).map encResultPV := by
+  obtain ⟨w', qv', lv', h⟩ := h
+  have hdna : e.dna_sequence = cstr s := h.dna
+  simp only [Gen.encode.k9, h.np, truthy_bool, Bool.false_eq_true, if_false, bnd_ok, seq_norm, Gen.encode.k8,
+    h.vt, pyGt_nat_zero, hdna, tail]
+  by_cases hv : 0 < vtLen
+  · simp only [hv, decide_true, if_true, tie_set_vt s vtLen F hv hf]
+    cases setVt s vtLen with
+    | error err => rfl
+    | ok c => rfl
+  · simp only [hv, decide_false, Bool.false_eq_true, if_false]
+    rfl
+
+theorem tail_spec (F : Nat) (hf : 2 * vtLen + 2 ≤ F) {r : R (List Char)} {m : R (Flow Gen.encode.Env)}
+    (h : LoopPost (Done a tbl bits vtLen verbose []) r m) :
+    callResult (seq m (Gen.encode.k9 F)) = (r.bind (tail vtLen)).map encResultPV := by
+  cases r with
+  | error err => have : m = .error err := h; rw [this]; rfl
+  | ok s =>
+    obtain ⟨e', rfl, hd⟩ := h
+    exact k9_spec F hf hd
+
+theorem encode_eq (a : Acc) (tbl : Option Tbl) (v : Int) (bits : List Nat) (fast : Bool) (vtLen fuel : Nat) :
+    Dsw.encode a tbl v bits fast vtLen fuel =
+      (if fast then encodeFastLoop a tbl fuel v bits
+        else encodeNormalLoop a tbl fuel v (bitToNumberStr bits)).bind (tail vtLen) := by
+  unfold Dsw.encode tail
+  cases fast <;> rfl
+
+end
+end EncTie
+
+open EncTie
 
 theorem tie_encode (a : Acc) (tbl : Option Tbl) (v : Nat) (bits : List Nat) (fast : Bool)
     (vtLen fuel : Nat) (verbose : Bool)
@@ -17,6 +517,17 @@ theorem tie_encode (a : Acc) (tbl : Option Tbl) (v : Nat) (bits : List Nat) (fas
     Gen.encode fuel (bitsPV bits) (accPV a) (.int (v : Int)) (.bool fast) (.int (vtLen : Int)) (tblPV tbl)
         (.bool false) (.bool verbose) =
       (Dsw.encode a tbl v bits fast vtLen fuel).map encResultPV := by
-  sorry
+  rw [encode_eq]
+  cases fast with
+  | false =>
+    simp only [Gen.encode, Gen.encode.body, truthy_bool, bnd_ok, Bool.not_false, if_true,
+      bit_to_number_arr bits fuel verbose hb (by omega), pyLen_dstr, Bool.false_eq_true, if_false]
+    exact tail_spec fuel (by omega)
+      (while1_loop ha ht fuel _ fuel v _ [] _ hv (by constructor <;> rfl) (Digits_bitToNumberStr bits hb))
+  | true =>
+    simp only [Gen.encode, Gen.encode.body, truthy_bool, bnd_ok, Bool.not_true, Bool.false_eq_true, if_false,
+      if_true]
+    exact tail_spec fuel (by omega)
+      (while2_loop ha ht hb fuel _ fuel v 0 [] _ hv (by constructor <;> rfl))
 
 end Dsw.Tie
